@@ -165,11 +165,75 @@ theorem original_second_elaboration_fails (s s1 : ShState) (regs : List Reg) (hn
     unfold elabShadowOrig
     simp only [addAll, ShState.addOrig, hf, if_true]
 
+theorem c19_addAll_frozen_all (regs : List Reg) (s s' : ShState) (hf : s.frozen = true)
+    (h : addAll ShState.add s regs = .ok s') : ∀ r ∈ regs, s.ranges.contains r = true := by
+  induction regs with
+  | nil => intro r hr; cases hr
+  | cons x xs ih =>
+    simp only [addAll] at h
+    unfold ShState.add at h
+    rw [if_pos hf] at h
+    by_cases hc : s.ranges.contains x = true
+    · rw [if_pos hc] at h
+      intro r hr
+      rcases List.mem_cons.mp hr with rfl | hr
+      · exact hc
+      · exact ih h r hr
+    · rw [if_neg hc] at h; cases h
+
+/-- A PREPARED SHADOW NEVER SILENTLY WORKS FROM A STALE REGISTER SET (the map of a multiplexer is not frozen: registers may
+    be added to it between two elaborations). If a later elaboration over a possibly different register list succeeds, then
+    every register of that list was already known to the prepared shadow, and the state (hence the generated hardware) is
+    unchanged; -/
+theorem later_elaboration_ok_iff_known (s s1 s2 : ShState) (regs regs' : List Reg)
+    (h : elabShadow s regs = .ok s1) (h2 : elabShadow s1 regs' = .ok s2) :
+    (∀ r ∈ regs', s1.ranges.contains r = true) ∧ s2 = s1 := by
+  have hp := elab_prepares s s1 regs h
+  obtain ⟨s', ha, hq⟩ := c19_elab_ok s1 s2 regs' h2
+  have he := c19_addAll_frozen_eq regs' s1 s' hp.1 ha
+  rw [he] at ha hq
+  refine ⟨c19_addAll_frozen_all regs' s1 s1 hp.1 ha, ?_⟩
+  rw [c19_prepare_frozen s1 hp.1] at hq
+  cases hq; rfl
+
+/-- … and a register that was added after the first elaboration makes the next one stop with the descriptive refusal
+    (`lateRegister`, a ValueError since repair D15 — an AssertionError before it), never with a silent success -/
+theorem late_register_refused (s s1 : ShState) (regs regs' : List Reg) (r : Reg)
+    (h : elabShadow s regs = .ok s1) (hr : r ∈ regs') (hnew : s1.ranges.contains r = false) :
+    elabShadow s1 regs' = .error .lateRegister := by
+  have hp := elab_prepares s s1 regs h
+  have key : ∀ (l : List Reg), (∃ x ∈ l, s1.ranges.contains x = false) →
+      addAll ShState.add s1 l = .error .lateRegister := by
+    intro l
+    induction l with
+    | nil => rintro ⟨x, hx, _⟩; cases hx
+    | cons y ys ih =>
+      rintro ⟨x, hx, hxn⟩
+      simp only [addAll]
+      unfold ShState.add
+      rw [if_pos hp.1]
+      by_cases hc : s1.ranges.contains y = true
+      · rw [if_pos hc]
+        rcases List.mem_cons.mp hx with rfl | hx'
+        · rw [hxn] at hc; cases hc
+        · exact ih ⟨x, hx', hxn⟩
+      · rw [if_neg hc]
+  unfold elabShadow
+  rw [key regs' ⟨r, hr, hnew⟩]
+
 /-- non-vacuity: two registers, limit 1: elaborated twice with the same result -/
 example :
     let regs : List Reg := [⟨0, 2, 16, true, true⟩, ⟨2, 1, 8, true, true⟩]
     (elabShadow (ShState.new (some 1)) regs).toOption.map hardwareOf = some (regs, 2) ∧
     ((elabShadow (ShState.new (some 1)) regs).toOption.bind fun s1 => (elabShadow s1 regs).toOption.map hardwareOf) = some (regs, 2) := by
+  decide +kernel
+
+/-- non-vacuity of the late-register theorems: after an elaboration over one register, a second register in the list is refused -/
+example :
+    let r0 : Reg := ⟨0, 2, 16, true, true⟩
+    let r1 : Reg := ⟨2, 1, 8, true, true⟩
+    ((elabShadow (ShState.new none) [r0]).toOption.map fun s1 =>
+      match elabShadow s1 [r0, r1] with | .error .lateRegister => true | _ => false) = some true := by
   decide +kernel
 
 end Mux
